@@ -92,3 +92,185 @@ Theorem C20_reconcile_example :
   exists out, reconcile_field_set ReconcileLaws.Examples.ex_s ReconcileLaws.Examples.ex_root ReconcileLaws.Examples.ex_fs = Some (Some out).
 Proof. eexists. vm_compute. reflexivity. Qed.
 Print Assumptions C20_reconcile_example.
+
+(* ---- C20, first sentence, for the identity converter (Proofs/Transparent*.v).
+   Definitions (Proofs/Transparent.v):
+     vhop          = (label, operation): an operation of Proofs/History.v and the API version
+                     label the caller acts at;
+     vstep, vrun   the multi-version run: every operation at its own label, the live object
+                     carrying the label it was last written at, records keeping theirs;
+     relabel ver   every record moved to label ver (managers, sets, flags unchanged);
+     corresponds   the object of the multi-version state is the object of the single-version
+                     state, and the records are the same once relabelled;
+     one_schema    every label has the schema of ver; order_perm: the visiting order of the
+                     versions in the add-back loop is some permutation;
+     vop_ok        op_ok, and an update submits an object without empty list (known finding
+                     F23: an empty list is part of the object and of no field set) and without
+                     duplicate members.
+   Theorems: the multi-version run of ANY history corresponds to the single-version run of
+   the same operations; each single operation has the same outcome in both (same object,
+   same records up to labels, same conflicts, same error); prune does not look at labels
+   (needs unique manager names: refuted otherwise on a hand-made list with a repeated name).
+   The example has six operations by three managers at three labels, and its fourth
+   operation needs more than one add-back round. ---- *)
+From Coq Require Import List ZArith String Bool Arith Lia Permutation.
+From SMD Require Import Model.Value Model.Order Model.PathElem Model.PathSet Model.Schema Model.Walk
+  Model.Validate Model.FieldSet Model.Remove Model.Merge Model.Compare Model.Matcher Model.Reconcile
+  Model.Updater
+  Spec.PathsAsSets Spec.RefValid Spec.Resolve Spec.Agree Spec.RefDiff Spec.Examples
+  Proofs.OrderLaws Proofs.PathSetLaws Proofs.SchemaOk Proofs.FieldSetBase Proofs.FieldSetPaths
+  Proofs.FieldSetWf Proofs.FieldSetLaws Proofs.RemoveAbsent Proofs.RemoveWf Proofs.ResolveLaws
+  Proofs.UpdaterLaws Proofs.UpdaterLaws2 Proofs.MergeLaws Proofs.MergeAgree
+  Proofs.RemoveFrame Proofs.EnLaws Proofs.NodeSet Proofs.KeyFields Proofs.VeqbResolve
+  Proofs.SetCheckers Proofs.ApplyEffect Proofs.PruneShape Proofs.RemoveExt Proofs.Visible
+  Proofs.NodeCount Proofs.OrderIndep Proofs.OrderIndepN Proofs.ApplyInv Proofs.History
+  Proofs.TransparentPrune Proofs.TransparentCore Proofs.TransparentStep.
+From SMD Require Import Proofs.Transparent.
+Theorem C20_prune_is_label_blind :
+  forall (c : config) (R : typeref -> Prop) (ver : string) (M : value) 
+           (mf : managed) (last : mrec) (n : nat) (lm mgr : string) (o : tv) 
+           (n1 : nat),
+         setting_ok c R ver ->
+         one_schema c ver ->
+         order_perm c ->
+         NoDup (map fst mf) ->
+         wf_value M = true ->
+         conforms (schema_of c ver) (tr_of c ver) false M = true ->
+         no_empty_list M = true ->
+         ps_ok (mr_set last) = true ->
+         applier_record_ok (schema_of c ver) (tr_of c ver) (mr_set last) ->
+         (forall (m : string) (r : mrec),
+          mf_get m mf = Some r ->
+          ps_ok (mr_set r) = true /\ owns_live_keys (schema_of c ver) (tr_of c ver) M (mr_set r)) ->
+         prune c n (lm, M) mf mgr (Some last) = UOk (o, n1) ->
+         exists (o' : tv) (n2 : nat),
+           prune c n (ver, M) (relabel ver mf) mgr
+             (Some {| mr_set := mr_set last; mr_ver := ver; mr_applied := mr_applied last |}) =
+           UOk (o', n2) /\ snd o' = snd o.
+Proof. exact prune_transparent. Qed.
+Print Assumptions C20_prune_is_label_blind.
+
+Theorem C20_prune_is_label_blind_needs_unique_names :
+  ~ prune_transparent_as_stated.
+Proof. exact prune_transparent_as_stated_refuted. Qed.
+Print Assumptions C20_prune_is_label_blind_needs_unique_names.
+
+Theorem C20_one_step_transparent :
+  forall (c : config) (R : typeref -> Prop) (ver : string) (stv : tv * managed)
+           (st1 : value * managed) (o : vhop),
+         setting_ok c R ver ->
+         one_schema c ver ->
+         order_perm c ->
+         state_ok c ver (fst st1) (snd st1) ->
+         no_empty_list (fst st1) = true ->
+         nodup_ok c ver (fst st1) ->
+         corresponds ver stv st1 ->
+         vop_ok c ver o ->
+         corresponds ver (vstep c stv o) (hstep c ver st1 (snd o)) /\
+         no_empty_list (fst (hstep c ver st1 (snd o))) = true /\
+         nodup_ok c ver (fst (hstep c ver st1 (snd o))).
+Proof. exact step_transparent. Qed.
+Print Assumptions C20_one_step_transparent.
+
+Theorem C20_multi_version_run_transparent :
+  forall (c : config) (R : typeref -> Prop) (ver : string) (ops : list vhop),
+         setting_ok c R ver ->
+         one_schema c ver ->
+         order_perm c ->
+         Forall (vop_ok c ver) ops -> corresponds ver (vrun c ver ops) (run c ver (map snd ops)).
+Proof. exact multi_version_run_transparent. Qed.
+Print Assumptions C20_multi_version_run_transparent.
+
+Theorem C20_multi_version_apply_outcome :
+  forall (c : config) (R : typeref -> Prop) (ver : string) (ops : list vhop)
+           (v mgr : string) (cfg : value) (force : bool),
+         setting_ok c R ver ->
+         one_schema c ver ->
+         order_perm c ->
+         Forall (vop_ok c ver) ops ->
+         vop_ok c ver (v, HApply mgr cfg force) ->
+         match apply_op c (fst (vrun c ver ops)) (v, cfg) v (snd (vrun c ver ops)) mgr force with
+         | UOk (o, mf') =>
+             match
+               apply_op c (ver, fst (run c ver (map snd ops))) (ver, cfg) ver
+                 (snd (run c ver (map snd ops))) mgr force
+             with
+             | UOk (o1, mf1) => option_map snd o = option_map snd o1 /\ relabel ver mf' = mf1
+             | UErr _ => False
+             end
+         | UErr e =>
+             match
+               apply_op c (ver, fst (run c ver (map snd ops))) (ver, cfg) ver
+                 (snd (run c ver (map snd ops))) mgr force
+             with
+             | UOk _ => False
+             | UErr e1 => e = e1
+             end
+         end.
+Proof. exact multi_version_apply_outcome. Qed.
+Print Assumptions C20_multi_version_apply_outcome.
+
+Theorem C20_multi_version_update_outcome :
+  forall (c : config) (R : typeref -> Prop) (ver : string) (ops : list vhop)
+           (v mgr : string) (obj : value),
+         setting_ok c R ver ->
+         one_schema c ver ->
+         order_perm c ->
+         Forall (vop_ok c ver) ops ->
+         match update_op c (fst (vrun c ver ops)) (v, obj) v (snd (vrun c ver ops)) mgr with
+         | UOk (t, mf') =>
+             match
+               update_op c (ver, fst (run c ver (map snd ops))) (ver, obj) ver
+                 (snd (run c ver (map snd ops))) mgr
+             with
+             | UOk (t1, mf1) => snd t = snd t1 /\ relabel ver mf' = mf1
+             | UErr _ => False
+             end
+         | UErr e =>
+             match
+               update_op c (ver, fst (run c ver (map snd ops))) (ver, obj) ver
+                 (snd (run c ver (map snd ops))) mgr
+             with
+             | UOk _ => False
+             | UErr e1 => e = e1
+             end
+         end.
+Proof. exact multi_version_update_outcome. Qed.
+Print Assumptions C20_multi_version_update_outcome.
+
+Theorem C20_transparent_example :
+  setting_ok exr_config FieldSetLaws.ex_R "v1" /\
+         one_schema exr_config "v1" /\
+         order_perm exr_config /\
+         Forall (vop_ok exr_config "v1") tx_ops /\
+         map fst tx_ops = "v1" :: "v2" :: "v3" :: "v3" :: "v2" :: "v1" :: nil /\
+         corresponds "v1" (vrun exr_config "v1" tx_ops) (run exr_config "v1" (map snd tx_ops)) /\
+         vrun exr_config "v1" tx_ops =
+         ("v1", tx_obj,
+          ("a", {| mr_set := tx_set_a; mr_ver := "v1"; mr_applied := true |})
+          :: ("b", {| mr_set := tx_set_b; mr_ver := "v2"; mr_applied := false |}) :: nil) /\
+         run exr_config "v1" (map snd tx_ops) =
+         (tx_obj,
+          ("a", {| mr_set := tx_set_a; mr_ver := "v1"; mr_applied := true |})
+          :: ("b", {| mr_set := tx_set_b; mr_ver := "v1"; mr_applied := false |}) :: nil).
+Proof. exact transparent_example. Qed.
+Print Assumptions C20_transparent_example.
+
+Theorem C20_example_needs_two_rounds :
+  vrun exr_config "v1" (firstn 3 tx_ops) = ("v2", tx_M, tx_mf3) /\
+         remove ex_schema ex_rt tx_M (ps_en ex_schema ex_rt (mr_set tx_last)) = VNull /\
+         map fst (managed_at_version tx_mfp) = "v1" :: "v2" :: "v3" :: nil /\
+         add_back_round exr_config (managed_at_version tx_mfp) ("v3" :: "v2" :: "v1" :: nil) 4
+           ("v3", tx_M) ("v3", VNull) =
+         UOk
+           ("v1", tx_M,
+            ("v1",
+             VMap
+               (("aa", VInt 1)
+                :: ("items", VList (VMap (("name", VStr "x") :: nil) :: nil)) :: nil)), true, 10) /\
+         add_back_owned exr_config 4 ("v3", tx_M) ("v3", VNull) "v3" tx_mfp =
+         UOk ("v1", tx_M, 22) /\
+         prune exr_config 3 ("v2", tx_M) tx_mfp "c" (Some tx_last) = UOk ("v3", tx_M, 24).
+Proof. exact example_needs_two_rounds. Qed.
+Print Assumptions C20_example_needs_two_rounds.
+
